@@ -179,6 +179,19 @@ def json_value(v):
     return "{" + ", ".join(parts) + "}"
 
 
+def json_safe(v):
+    """serde_json's default float parser is not correctly rounded for long decimal texts (no float_roundtrip
+    feature); the JSON stream therefore only uses floats with at most 6 significant digits, which every parser reads exactly"""
+    if v[0] == "f":
+        f = float_of(v[1])
+        if f != f or math.isinf(f):
+            return v
+        return ("f", bits_of(float("%.6g" % f)))
+    if v[0] == "m":
+        return ("m", [(k, json_safe(x)) for k, x in v[1]])
+    return v
+
+
 def as_json_model(v):
     """serde_json hands non-negative integers to visit_u64"""
     if v[0] == "i" and v[1] >= 0:
@@ -374,7 +387,7 @@ def gen_docs(c):
         cases.append(("C", gen_document(rng, fields), fields))
     # JSON texts of thresholds (duplicate keys and u64 reach the visitors here)
     for _ in range(300 if not thorough else 4000):
-        v = rand_map(rng) if rng.random() < 0.6 else rand_scalar(rng)
+        v = json_safe(rand_map(rng) if rng.random() < 0.6 else rand_scalar(rng))
         if json_value(v) is not None:
             cases.append(("J", v))
     for z in UINTS + INTS:
